@@ -32,7 +32,13 @@ async fn run_world(wi: u64, mut rng: Rng) -> anyhow::Result<Summary> {
     let mut nodes = vec![]; let mut names = vec![];
     for i in 0..n {
         let name = format!("c02w{}n{}x{}", wi, i, rng.below(1 << 20));
-        let addr: SocketAddr = format!("10.{}.{}.1:9000", i + 1, i + 1).parse()?;
+        // every address family the transport can report for a peer: IPv4, global IPv6 and IPv4-mapped IPv6
+        // (what a dual-stack listener reports for an IPv4 client)
+        let addr: SocketAddr = match (wi as usize + i) % 5 {
+            3 => format!("[2001:db8:{:x}:{:x}::1]:9000", i + 1, i + 1).parse()?,
+            4 => format!("[::ffff:10.{}.{}.1]:9000", i + 1, i + 1).parse()?,
+            _ => format!("10.{}.{}.1:9000", i + 1, i + 1).parse()?,
+        };
         nodes.push(spawn_node(&net, &name, addr, Duration::from_millis(250), 8).await?);
         names.push(name);
     }
